@@ -127,9 +127,15 @@ def generate(rng, tier):
         if r < 0.08:
             ops.append({"fe": "noreader", "mod": mod, "name": rng.choice(["r1", "r2", "rn"])})
             continue
-        fe = rng.choice(["lazy", "lazy", "onebyone", "repl"])
+        fe = rng.choice(["lazy", "lazy", "onebyone", "repl", "iter"])
         reader = "repl" if fe == "repl" else rng.choice(["own", "own", "own", "fresh"])
-        ops.append({"fe": fe, "mod": mod, "reader": reader, "forms": gen_forms(rng, nmods, mod), "pos": fe == "lazy" and rng.random() < 0.6})
+        op = {"fe": fe, "mod": mod, "reader": reader, "forms": gen_forms(rng, nmods, mod), "pos": fe == "lazy" and rng.random() < 0.6}
+        if fe == "iter" and nmods > 1 and len(op["forms"]) >= 2 and rng.random() < 0.7:
+            # the stream is consumed form by form from ONE read_many iterator; while it is suspended between two forms,
+            # another module evaluates a defreader model that has no reader of its own
+            op["pause"] = {"at": rng.randrange(1, len(op["forms"])), "mod": rng.choice([m for m in range(nmods) if m != mod]),
+                           "name": rng.choice(["r1", "r2", "rn"])}
+        ops.append(op)
     return {"nmods": nmods, "ops": ops}
 
 
@@ -385,7 +391,20 @@ def execute(desc):
                 before_tables = {i: dict(t) for i, t in model.tables.items()}
                 model.nested_jobs = {}
                 model.rt_actions = []
-                recs, err = model.process(op2, Rm, uid)
+                pause = op.get("pause") if fe == "iter" else None
+                pause_tag = None
+                if pause:
+                    k_ = pause["at"]
+                    recs, err = model.process(dict(op2, forms=forms[:k_]), Rm, uid)
+                    if err is None:
+                        pause_tag = model.tag(pause["mod"], pause["name"])
+                        model.tables[pause["mod"]][pause["name"]] = pause_tag   # no reader is active: only the module table
+                        tail = forms[k_:]
+                        recs2, err = model.process(dict(op2, forms=tail), Rm, uid + k_)
+                        forms[k_:] = tail
+                        recs = recs + recs2
+                else:
+                    recs, err = model.process(op2, Rm, uid)
                 if err is None and fe in ("lazy", "repl"):
                     # the whole stream is compiled first and run afterwards.  At run time, in source order, require
                     # transfers again whatever the source module's table holds by then, and defreader (an
@@ -443,6 +462,26 @@ def execute(desc):
                                               "detail": {"op": oi, "form": k, "stream_position_when_compiled": p,
                                                          "end_of_form_and_probe": offsets[k], "text": text[:600]}})
                                 break
+                elif fe == "iter":
+                    st = io.StringIO("\n".join(srcs) + "\n")
+                    try:
+                        it = iter(hy.read_many(st, reader=reader))
+                        n_done = 0
+                        while True:
+                            if pause_tag is not None and n_done == pause["at"]:
+                                faults["defreader_while_another_stream_is_suspended"] = faults.get("defreader_while_another_stream_is_suspended", 0) + 1
+                                pf = hy.read(render_def(pause["name"], pause_tag), reader=HyReader())
+                                if hasattr(pf, "reader"):
+                                    del pf.reader
+                                hy.eval(pf, module=mods[pause["mod"]])
+                            try:
+                                f1 = next(it)
+                            except StopIteration:
+                                break
+                            hy.eval(f1, module=M)
+                            n_done += 1
+                    except BaseException as e:
+                        got_err = e
                 elif fe == "onebyone":
                     st = io.StringIO("\n".join(srcs) + "\n")
                     try:
